@@ -185,6 +185,9 @@ func buildComp(g *graph, idx int, edges []gedge) interface{} {
 		}
 		if len(edges) == 0 {
 			delete(s, "properties")
+		} else if idx%2 == 1 {
+			// `type` is optional: properties alone make the references of an object schema
+			delete(s, "type")
 		}
 		return s
 	case "parameters", "headers":
